@@ -733,6 +733,10 @@ func (rn *run) planPhase2() {
 	for i := 0; i < e.Pick(1, 6); i++ {
 		files = append(files, kind{5, 256, true})
 	}
+	// revision 5 (Adobe extension level 3, read-only in the library): bits 255 marks it for the model
+	for i := 0; i < e.Pick(3, 20); i++ {
+		files = append(files, kind{5, 255, true})
+	}
 	pws := []string{"", "user", "pässwörd", strings.Repeat("x", 40), "owner-password", strings.Repeat("Long", 33)}
 	f, err := os.Create(filepath.Join(e.Dir, "plan2.txt"))
 	if err != nil {
